@@ -165,6 +165,8 @@ INS_CELLS = [
     ("ins-n-update", "G2u", {"n_update": 60}, None),
     ("ins-multi-criteria-all", "G2u", {"stopping_criterion": ["ess", "log_dZ"], "tolerance": [1500.0, 0.01], "check_criteria": "all", "max_iteration": 15}, None),
     ("ins-multi-criteria-any", "G2u", {"stopping_criterion": ["ratio", "Z_err"], "tolerance": [0.0, 1.02], "check_criteria": "any", "max_iteration": 15}, None),
+    ("ins-criteria-noncanonical-order-all", "G2u", {"stopping_criterion": ["fractional_error", "ratio"], "tolerance": [0.05, 0.0], "check_criteria": "all", "max_iteration": 15}, None),
+    ("ins-criteria-noncanonical-order-any", "G2u", {"stopping_criterion": ["log_evidence", "ratio"], "tolerance": [0.005, -1.5], "check_criteria": "any", "max_iteration": 15}, None),
     ("ins-fractional-error", "G2u", {"stopping_criterion": "fractional_error", "tolerance": 0.03, "max_iteration": 15}, None),
     ("ins-min-iteration", "G2u", {"min_iteration": 7, "max_iteration": 15}, None),
     ("ins-weighted-kl", "G2u", {"weighted_kl": True}, None),
